@@ -134,6 +134,20 @@ def _work(seeds):
             fail = check_tree(code)
         except Exception as ex:  # noqa: BLE001
             fail = "navigation raised %r" % (ex,)
+        if fail is None and s % 3 == 0:
+            # the same on a tree that an edit has built: a node WITH children put at several matches of a string target
+            # (each place gets its own copy, so every node is still met exactly once and is found where it is)
+            try:
+                import mwparserfromhell as M
+                donors = [n for n in M.parse(text).filter() if any(len(ch.nodes) for ch in n.__children__())]
+                if donors:
+                    page = M.parse("p{{M}}q{{box|{{M}}|k={{M}}}}r" + text)
+                    getattr(page, ("replace", "insert_before", "insert_after")[s % 9 // 3])("{{M}}", donors[s % len(donors)])
+                    fail = check_tree(page)
+                    if fail:
+                        fail = "after %s('{{M}}', <node %r>) on a page with three matches: %s" % (("replace", "insert_before", "insert_after")[s % 9 // 3], str(donors[s % len(donors)])[:40], fail)
+            except Exception as ex:  # noqa: BLE001
+                fail = "navigation on an edited tree raised %r" % (ex,)
         rec = treeprops.impl_record(code)
         kinds = {type(n).__name__ for n in code.filter()}
         special = any(k in text for k in ("<", "[[", "|"))
